@@ -25,6 +25,21 @@ def cases(tier, seed):
                 continue
             for beh in (False, True):
                 yield {"c": cd, "beh": beh, "file": False}
+    # ordinary nets whose names only START like the reader's internal constants (tie_hi, tie_lo, tie_a)
+    for nm in ("tie_hi", "tie_lo", "tie_a"):
+        for t in ("and", "1", "0", "nor"):
+            fis = [] if t in ("0", "1") else ["a", "b"]
+            cd = {"name": "c", "nodes": [["a", "input", False], ["b", "input", False], [nm, t, rng.random() < 0.5], ["y", "or", True]],
+                  "edges": [[f, nm] for f in fis] + [[nm, "y"], ["a", "y"]], "bbs": {}}
+            for beh in (False, True):
+                yield {"c": cd, "beh": beh, "file": False}
+    # a constant that is not an output and drives a blackbox input pin (both writer styles)
+    for k in ("0", "1"):
+        cd = {"name": "c", "nodes": [["a", "input", False], ["rst_off", k, False], ["u.d", "bb_input", False], ["u.r", "bb_input", False],
+                                     ["u.q", "bb_output", False], ["y", "buf", True]],
+              "edges": [["a", "u.d"], ["rst_off", "u.r"], ["u.q", "y"]], "bbs": {"u": ["ffr", ["d", "r"], ["q"]]}}
+        for beh in (False, True):
+            yield {"c": cd, "beh": beh, "file": False}
     for i in range(200 if tier == "quick" else 4000):
         names = None
         r = rng.random()
